@@ -1,10 +1,10 @@
 package props
 
 import (
-	"strings"
 	"go/ast"
 	"go/token"
 	"go/types"
+	"strings"
 
 	"verifcheck/an"
 )
@@ -28,6 +28,9 @@ func c04(c *an.Ctx) {
 	// ---------------------------------------------------------------- R1
 	{
 		r := c.Rule("C04.R1", "K-LOCKHELD", "engine:(*shard).cloneReaders — the view (memtables, file lists, references) is built under the shared snapshotLock")
+		// shelf mode reads through the WAL reader and is a protocol of its own (not claimed): it is not
+		// spliced into cloneReaders when the interprocedural view is built
+		opaque(r, E+":shard.cloneShelfModeReaders")
 		if f := fn(r, E+":shard.cloneReaders"); f != nil {
 			snap := f.Find(an.MRead("s.snapshotTbl", obj(r, E+":shard.snapshotTbl")))
 			act := f.Find(an.MRead("s.activeTbl", obj(r, E+":shard.activeTbl")))
@@ -164,7 +167,7 @@ func c04(c *an.Ctx) {
 				}
 				f := c.P.Fn(cs.Caller)
 				s := f.Find(an.MCall("TSSPFile.Remove", rem))
-				f.Guarded(r, s, "TSSPFile.Remove only when !Inuse()", an.AtomLike(`^(local\(\w+\)|p\d+)\.Inuse\(\)$`, false))
+				f.Guarded(r, s, "TSSPFile.Remove only when !Inuse()", an.AtomLike(`^`+elemRe+`\.Inuse\(\)$`, false))
 			}
 			r.Floor(3, "guarded removal sites")
 		}
@@ -174,14 +177,14 @@ func c04(c *an.Ctx) {
 				gc := f.Find(call(r, I+":TablesGC.Add"))
 				rn := f.Find(call(r, I+":TSSPFile.Rename"))
 				if !r.Failed() {
-					f.Guarded(r, rn, "rename-aside only when Inuse()", an.AtomLike(`^(local\(\w+\)|p\d+)\.Inuse\(\)$`, true))
+					f.Guarded(r, rn, "rename-aside only when Inuse()", an.AtomLike(`^`+elemRe+`\.Inuse\(\)$`, true))
 					r.AddSites(gc.Len())
 					if gc.Len() == 0 {
 						r.Fail(spec+": gc", c.P.Pos(f.Body.Pos()), "in-use files are no longer queued for deferred removal")
 					} else if rn.Len() == 0 {
 						r.Fail(spec+": in-use file not renamed aside", c.P.Pos(gc.List[0].Node.Pos()), "%s hands an in-use file to the GC under its regular name: if the process dies before the last reader is done, the replaced file is loaded again next to its replacement (every row twice) and no log is left to repair it", f.Name)
 					} else {
-						f.Precedes(r, rn, gc, an.OrderOpt{Success: true, Label: "in use: rename to the temporary name (success) ≺ hand-over to the GC", Unless: []an.AtomPred{an.AtomLike(`^(local\(\w+\)|p\d+)\.Inuse\(\)$`, false)}})
+						f.Precedes(r, rn, gc, an.OrderOpt{Success: true, Label: "in use: rename to the temporary name (success) ≺ hand-over to the GC", Unless: []an.AtomPred{an.AtomLike(`^`+elemRe+`\.Inuse\(\)$`, false)}})
 						for _, s := range rn.List {
 							ce := s.Node.(*ast.CallExpr)
 							if len(ce.Args) != 1 || !strings.HasSuffix(types.ExprString(ce.Args[0]), "tmpFileSuffix") {
